@@ -79,6 +79,10 @@ class Report:
             return
         per_fn = {}
         for r in results:
+            for k_, note_ in (r.get("assumed_used") or {}).items():
+                t_ = f"assumed contract applied at a call site (not verified against its body): {k_} - {note_}"
+                if t_ not in self.trusted:
+                    self.trusted.append(t_)
             per_fn.setdefault(r["contract"], 0)
             per_fn[r["contract"]] += len(r["records"])
             if r["error"]:
